@@ -226,6 +226,55 @@ def run_routes(ctx, stores, filters, exp_keys, case, tag):
                 pass   # duplicates of one (id, version) in a single store are C11's business
 
 
+def reuse_route(ctx, stores, filters, model, case):
+    """The query is a FilterSet *object* that is handed to one source after another; the first source has a filter of its
+    own attached.  Neither the second source's answer nor the caller's FilterSet may be affected by the first call."""
+    import stix2
+    from stix2.datastore.filters import FilterSet
+    if len(stores) < 2:
+        return
+    (n1, s1), (n2, s2) = stores[0], stores[1]
+    try:
+        own = gen_own_filter(model)
+        exp2 = {key(j) for j in evaluate(filters, model.items, TS_PROPS)}
+        exp1 = {key(j) for j in evaluate(filters + [own], model.items, TS_PROPS)}
+    except Unjudged:
+        return
+    fs_obj = FilterSet([to_lib(f) for f in filters])
+    before = [tuple(f) for f in fs_obj]
+    s1.filters.add(to_lib(own))
+    try:
+        with warnings.catch_warnings():
+            warnings.simplefilter("ignore")
+            r1 = {key(norm(x)) for x in s1.query(fs_obj)}
+            r2 = {key(norm(x)) for x in s2.query(fs_obj)}
+            cds = stix2.CompositeDataSource()
+            cds.add_data_sources([s1, s2])
+            fs2 = FilterSet([to_lib(f) for f in filters])
+            rc = {key(norm(x)) for x in cds.query(fs2)}
+    except Exception as e:
+        ctx.violation("query-raised", "query with a FilterSet object raised %s" % type(e).__name__, dict(case, filters=[fdesc(f) for f in filters], exception=repr(e)))
+        return
+    finally:
+        s1.filters.remove(to_lib(own))
+    ctx.ev(3)
+    ctx.count("filterset_reuse")
+    w = dict(case, filters=[fdesc(f) for f in filters], attached_to_first_source=fdesc(own), first=n1, second=n2)
+    if r1 != exp1:
+        ctx.violation("query-result-mismatch", "%s with an attached filter and a FilterSet query: %d expected, %d returned" % (n1, len(exp1), len(r1)), w)
+    if r2 != exp2:
+        ctx.violation("filters-leak-between-sources", "%s asked after %s with the same FilterSet object: %d expected, %d returned" % (n2, n1, len(exp2), len(r2)), w)
+    if rc != (exp1 | exp2):
+        ctx.violation("filters-leak-between-sources", "composite over [%s with own filter, %s]: %d expected, %d returned" % (n1, n2, len(exp1 | exp2), len(rc)), w)
+    if [tuple(f) for f in fs_obj] != before:
+        ctx.violation("callers-filterset-modified", "the caller's FilterSet object was modified by query()", dict(w, before=len(before), after=len(list(fs_obj))))
+
+
+def gen_own_filter(model):
+    types = sorted({j["type"] for j in model.items})
+    return ("type", "!=", types[0]) if types else ("type", "!=", "tool")
+
+
 def classify(filters, missing, extra, store):
     if any(f[0] in TS_PROPS and f[1] == "in" for f in filters) and missing and not extra:
         return "in-list-timestamp-strings"
@@ -270,6 +319,7 @@ def wl_random(ctx, rng, i):
             # laws on the oracle side are trivial; on the library side they follow from equality with the oracle for the
             # whole set and for each part, so query the parts too
             run_routes(ctx, stores, filters, exp_keys, case, "random")
+            reuse_route(ctx, stores if q % 2 else stores[::-1], filters, model, case)
             if len(filters) > 1:
                 for f, p in zip(filters, parts):
                     run_routes(ctx, stores[:1] if q % 2 else stores[1:], [f], {key(j) for j in p}, case, "part")
@@ -392,6 +442,8 @@ def floors(m, tier):
     out = []
     if c.get("queries", 0) < 3000:
         out.append("fewer than 3000 queries judged")
+    if c.get("filterset_reuse", 0) < 200:
+        out.append("FilterSet-object reuse exercised fewer than 200 times")
     if c.get("alphabet_sets", 0) < alphabet_size(tier):
         out.append("optimiser alphabet not completely enumerated (%d of %d)" % (c.get("alphabet_sets", 0), alphabet_size(tier)))
     ops = m["seen"].get("operators", set())
